@@ -133,6 +133,12 @@ def _facts_text(node: ast.AST, stop: ast.AST) -> List[Tuple[str, bool]]:
         except SyntaxError:
             t = f.text
         out.append((t, f.positive))
+        try:
+            e = ast.parse(t, mode="eval").body
+            if isinstance(e, ast.Compare) and len(e.ops) == 1 and isinstance(e.ops[0], (ast.Eq, ast.NotEq, ast.Is, ast.IsNot)):
+                out.append((nsrc(ast.Compare(left=e.comparators[0], ops=e.ops, comparators=[e.left])), f.positive))
+        except SyntaxError:
+            pass
     return out
 
 
